@@ -10,7 +10,9 @@
 #include "rkcommon/utility/OwnedArray.h"
 #include "rkcommon/utility/DataView.h"
 
+#include <pmmintrin.h>
 #include <sys/mman.h>
+#include <xmmintrin.h>
 
 using namespace rkcommon::utility;
 using pbt::Op;
@@ -25,16 +27,32 @@ struct EV
 {
   static T make(long long v) { return (T)v; }
 };
+// a few values whose BITS matter: -0.0 and denormals compare equal to 0 (the latter under denormals-are-zero, which is how
+// initTaskingSystem(n, true) leaves the calling thread), but an array stores what it was given
 template <>
 struct EV<double>
 {
-  static double make(long long v) { return v + 0.5; }
+  static double make(long long v)
+  {
+    switch (v) {
+    case 117: return -0.0;
+    case 118: return 4.9406564584124654e-324;
+    case 119: return -2.2250738585072014e-308 / 4;
+    default: return v + 0.5;
+    }
+  }
 };
 template <>
 struct EV<Pod12>
 {
-  static Pod12 make(long long v) { return Pod12{(float)v, (float)(v + 1), (float)(v + 2)}; }
+  static Pod12 make(long long v) { return v == 119 ? Pod12{-0.0f, 1e-45f, 0.0f} : Pod12{(float)v, (float)(v + 1), (float)(v + 2)}; }
 };
+// elements are compared by value AND by bit pattern
+template <class T>
+static bool sameBits(const T &a, const T &b)
+{
+  return memcmp(&a, &b, sizeof(T)) == 0;
+}
 
 enum
 {
@@ -513,12 +531,12 @@ struct Harness
       size_t count = 0;
       for (const T &e : A) {
         PBT_ASSERT(count < n);
-        PBT_ASSERT_MSG(e == x.expect[count], "wrapper " << i << " kind " << x.kind << " element " << count << " differs from the model");
+        PBT_ASSERT_MSG(sameBits(e, x.expect[count]), "wrapper " << i << " kind " << x.kind << " element " << count << " differs from the model (bit pattern)");
         ++count;
       }
       PBT_ASSERT_MSG(count == n, "iteration covered " << count << " elements, size is " << n);
       for (size_t k = 0; k < n; ++k)
-        PBT_ASSERT(A[k] == x.expect[k] && A.at(k) == x.expect[k]);
+        PBT_ASSERT(sameBits(A[k], x.expect[k]) && sameBits(A.at(k), x.expect[k]));
       for (size_t idx : {(size_t)0, n ? n - 1 : (size_t)0, n, n + 1, (size_t)-1}) {
         bool threw = false;
         try {
@@ -535,6 +553,19 @@ struct Harness
 template <class T>
 static void arrays_case(const std::vector<Op> &ops, pbt::Ctx &ctx)
 {
+  // every third case runs with flush-to-zero / denormals-are-zero set in the calling thread, as after
+  // tasking::initTaskingSystem(n, true): arrays copy bits, whatever the floating-point mode
+  const unsigned savedCsr = _mm_getcsr();
+  struct Restore
+  {
+    unsigned csr;
+    ~Restore() { _mm_setcsr(csr); }
+  } restore{savedCsr};
+  if (!ops.empty() && (ops.size() + (size_t)ops[0].c) % 3 == 0) {
+    _MM_SET_FLUSH_ZERO_MODE(_MM_FLUSH_ZERO_ON);
+    _MM_SET_DENORMALS_ZERO_MODE(_MM_DENORMALS_ZERO_ON);
+    ctx.label("FTZ/DAZ mode");
+  }
   Harness<T> h;
   for (const Op &op : ops) {
     h.step(op, ctx);
@@ -634,6 +665,121 @@ static void fixedarray_4gib(const std::pair<int, int> &cs, pbt::Ctx &ctx)
   munmap(m, n);
 }
 
+// ---------------------------------------------------------------- a FixedArray whose (re)allocation fails
+// "size() and data() consistent with the last operation ... contents stay valid as long as the array is alive": an
+// assignment that fails with std::bad_alloc has not happened - the array still is what it was (and readable).  The
+// element type owns its operator new[], which is how the failure is injected (FixedArray allocates with `new T[n]`).
+struct Frail
+{
+  int v;
+  static bool &failNext()
+  {
+    static bool f = false;
+    return f;
+  }
+  static void *operator new[](size_t sz)
+  {
+    if (failNext()) {
+      failNext() = false;
+      throw std::bad_alloc();
+    }
+    return ::operator new[](sz);
+  }
+  static void operator delete[](void *p) noexcept { ::operator delete[](p); }
+};
+static void fixedarray_alloc_failure(const std::vector<Op> &ops, pbt::Ctx &ctx)
+{
+  std::shared_ptr<FixedArray<Frail>> arr[2];
+  std::unique_ptr<FixedArrayView<Frail>> view;
+  std::vector<int> model[2];  // contents
+  bool exists[2] = {false, false};
+  int viewOf = -1;
+  std::vector<int> viewModel;
+  bool sawFailure = false;
+  int stamp = 1;
+  for (const Op &op : ops) {
+    const int a = (int)(op.a % 2), n = (int)(op.b % 9);
+    std::vector<Frail> src((size_t)n);
+    for (auto &e : src)
+      e.v = stamp++;
+    const bool fail = op.c % 3 == 0;
+    switch (((op.k % 5) + 5) % 5) {
+    case 0:  // construct from a vector
+      Frail::failNext() = fail;
+      try {
+        std::shared_ptr<FixedArray<Frail>> fresh(new FixedArray<Frail>(src));
+        arr[a] = std::move(fresh);
+        exists[a] = true;
+        model[a].clear();
+        for (auto &e : src)
+          model[a].push_back(e.v);
+      } catch (const std::bad_alloc &) {
+        sawFailure = true;  // nothing was replaced
+      }
+      Frail::failNext() = false;
+      break;
+    case 1:  // assign a vector to an existing array
+      if (!exists[a])
+        break;
+      Frail::failNext() = fail;
+      try {
+        *arr[a] = src;
+        model[a].clear();
+        for (auto &e : src)
+          model[a].push_back(e.v);
+      } catch (const std::bad_alloc &) {
+        sawFailure = true;
+        ctx.label("assignment failed with bad_alloc");
+      }
+      Frail::failNext() = false;
+      break;
+    case 2: {  // assign a std::array
+      if (!exists[a])
+        break;
+      std::array<Frail, 3> sa;
+      for (auto &e : sa)
+        e.v = stamp++;
+      Frail::failNext() = fail;
+      try {
+        *arr[a] = sa;
+        model[a].clear();
+        for (auto &e : sa)
+          model[a].push_back(e.v);
+      } catch (const std::bad_alloc &) {
+        sawFailure = true;
+        ctx.label("assignment failed with bad_alloc");
+      }
+      Frail::failNext() = false;
+      break;
+    }
+    case 3:  // a view onto the array keeps what it saw
+      if (!exists[a])
+        break;
+      view.reset(new FixedArrayView<Frail>(arr[a], 0, arr[a]->size()));
+      viewOf = a;
+      viewModel = model[a];
+      break;
+    default:  // destroy
+      arr[a].reset();
+      exists[a] = false;
+      break;
+    }
+    for (int i = 0; i < 2; ++i)
+      if (exists[i]) {
+        PBT_ASSERT_MSG(arr[i]->size() == model[i].size(), "FixedArray " << i << " reports size " << arr[i]->size() << ", last successful operation gave it " << model[i].size());
+        for (size_t k = 0; k < model[i].size(); ++k)
+          PBT_ASSERT_MSG((*arr[i])[k].v == model[i][k], "FixedArray " << i << " element " << k << " changed");
+      }
+    if (view) {
+      PBT_ASSERT(view->size() == viewModel.size());
+      for (size_t k = 0; k < viewModel.size(); ++k)
+        PBT_ASSERT_MSG((*view)[k].v == viewModel[k], "FixedArrayView element " << k << " changed after its array was reassigned / destroyed");
+    }
+  }
+  (void)viewOf;
+  ctx.nt(sawFailure);
+}
+
 static void register_properties()
 {
   {
@@ -641,6 +787,7 @@ static void register_properties()
     const int on = tier && std::string(tier) == "thorough" ? 1 : 0;
     pbt::property<std::pair<int, int>>("fixedarray_4gib", 1, rc::gen::pair(rc::gen::just(on), pbt::range<int>(0, 2)), fixedarray_4gib);
   }
+  pbt::property<std::vector<Op>>("fixedarray_alloc_failure", 1500, pbt::vec(pbt::genOp(5, 1, 8, 8), 16), fixedarray_alloc_failure);
   auto ops = pbt::vec(pbt::genOpWeighted({{3, SRC_NEW}, {1, SRC_DESTROY}, {2, SRC_OVERWRITE}, {5, W_CTOR_FROM_SRC}, {1, W_CTOR_DEFAULT},
                                              {3, W_ASSIGN_FROM_SRC}, {1, W_RESET}, {2, W_RESET_PTR}, {4, OA_RESIZE}, {5, W_COPY_CTOR},
                                              {3, W_COPY_ASSIGN}, {3, W_DESTROY}, {4, FV_MAKE}, {2, FA_SIZED}},
